@@ -389,13 +389,14 @@ class Check:
                     if signature not in self.known_hits:
                         self.known_hits.append(signature)
                         print("KNOWN-FINDING: property=%s %s" % (self.prop, f.get("what", what)), flush=True)
-                    return
+                    return False
         path = self.replay_file("# %s\n%s" % (what.replace("\n", "\n# "), replay_text), suffix)
         if any(v[0] == path for v in self.violations):
-            return
+            return True
         self.violations.append((path, no_input))
         print("VIOLATION property=%s replay=%s%s" % (self.prop, path, " no-failing-input-found" if no_input else ""), flush=True)
         log("  -> " + what.splitlines()[0][:300])
+        return True
 
     def finish(self, level="proof"):
         self.cov["distinct_nontrivial"] = len(self.distinct)
